@@ -93,9 +93,16 @@ impl r2d2::ManageConnection for FakeMgr {
         }
     }
     fn has_broken(&self, conn: &mut FakeConn) -> bool {
-        let mut g = self.script.lock().unwrap();
-        g.calls.push((1, conn.serial, std::thread::current().id()));
-        g.flags.get(&conn.serial).copied().unwrap_or(0) & 1 != 0
+        let flags = {
+            let mut g = self.script.lock().unwrap();
+            g.calls.push((1, conn.serial, std::thread::current().id()));
+            g.flags.get(&conn.serial).copied().unwrap_or(0)
+        };
+        if flags & 8 != 0 {
+            // the backend's own check panics: the interaction fails and the wrapper is poisoned
+            panic!("scripted panic in has_broken");
+        }
+        flags & 1 != 0
     }
 }
 pub struct R2d2;
@@ -112,6 +119,24 @@ impl Kind for R2d2 {
 }
 
 // ------------------------------------------------------------------ diesel over SqliteConnection
+/// the script of the diesel case that is running: diesel's (global) instrumentation records the
+/// thread on which a connection is established into its call log (kind 3)
+static EST_SCRIPT: Mutex<Option<Script>> = Mutex::new(None);
+
+struct EstWatcher;
+impl diesel::connection::Instrumentation for EstWatcher {
+    fn on_connection_event(&mut self, event: diesel::connection::InstrumentationEvent<'_>) {
+        if let diesel::connection::InstrumentationEvent::StartEstablishConnection { .. } = event {
+            if let Some(s) = EST_SCRIPT.lock().unwrap().as_ref() {
+                s.lock().unwrap().calls.push((3, -1, std::thread::current().id()));
+            }
+        }
+    }
+}
+fn est_watcher() -> Option<Box<dyn diesel::connection::Instrumentation>> {
+    Some(Box::new(EstWatcher))
+}
+
 pub struct Diesel;
 fn diesel_marker(c: &mut diesel::SqliteConnection) -> Option<i64> {
     use diesel::RunQueryDsl;
@@ -234,6 +259,13 @@ where
         let mut hb = 0;
         let mut iv = 0;
         for (k, serial, tid) in calls {
+            if k == 3 {
+                // a connection was established: must not happen on a thread that polls async code
+                if class_of(tid) == 0 {
+                    self.anomaly(26, serial);
+                }
+                continue;
+            }
             if k == 1 {
                 hb += 1;
             } else {
@@ -599,8 +631,12 @@ fn with_pool(
                     }
                 })),
             };
+            *EST_SCRIPT.lock().unwrap() = Some(script.clone());
+            let _ = diesel::connection::set_default_instrumentation(est_watcher);
+            // a file database or the in-memory one (every connection its own): the same rules apply
+            let url = if (cfg[1] + cfg[2]) % 2 == 0 { db_path() } else { ":memory:".to_string() };
             let mgr = deadpool_diesel::sqlite::Manager::from_config(
-                db_path(),
+                url,
                 deadpool_diesel::Runtime::Tokio1,
                 ManagerConfig { recycling_method: method },
             );
@@ -620,7 +656,7 @@ pub fn gen_case(rt: &tokio::runtime::Runtime, rng: &mut Rng, mgr: i64, maxlabels
     // which script flags can be realised on this backend
     let flag_choices: Vec<i64> = match (mgr, method) {
         (0, _) => vec![],
-        (1, _) => vec![0, 1, 2, 3],
+        (1, _) => vec![0, 1, 2, 3, 8, 10],
         (2, 2) | (2, 3) => vec![1, 2, 3, 4, 6],
         _ => vec![1, 4],
     };
